@@ -3,7 +3,7 @@ warnings.filterwarnings('ignore')
 import numpy as np, scipy.sparse as sps
 import pymoto as pym, modzoo, zoo_interactions as zi
 class Ctx:
-    def __init__(s, seed): s.seed=seed; s.search_evaluations=0; s.v=[]; s.c={}
+    def __init__(s, seed): s.seed=seed; s.search_evaluations=0; s.v=[]; s.c={}; s.rule=''
     def count(s,k,n=1): s.c[k]=s.c.get(k,0)+n
     def violation(s,*a,**k): s.v.append((a,k))
 seed = int(sys.argv[1]) if len(sys.argv) > 1 else 1
